@@ -13,6 +13,7 @@ package props
 // cyclic Jacobi on the symmetrised generator).
 
 import (
+	"runtime"
 	"encoding/json"
 	"fmt"
 	"math"
@@ -291,6 +292,9 @@ type c18Case struct {
 	Default bool `json:"default_constructed,omitempty"`
 	// Tables: the case is the comparison of the model's data with the frozen reference tables
 	Tables bool `json:"tables,omitempty"`
+	// Procs: GOMAXPROCS while the case runs (0 = unchanged): code that shares the rows of a matrix between
+	// GOMAXPROCS workers must give every row whatever that number is
+	Procs int `json:"gomaxprocs,omitempty"`
 }
 
 // c18TMin is the smallest positive normal double, a legal branch length t>=0.
@@ -518,8 +522,19 @@ func c18Tasks(tier string) []mc.Task {
 			}
 		}
 	}
+	// another number of processors (every number of rows per worker that 20 and 4 states allow)
+	for _, procs := range []int{1, 2, 3, 6, 7, 8, 9, 16, 19, 24} {
+		for _, name := range []string{"lg", "dayhoff"} {
+			start("procs")
+			pending = append(pending, c18Case{Model: name, T: T, Procs: procs})
+		}
+		start("procs")
+		pending = append(pending, c18Case{Model: "gtr", Par: []float64{0.2, 1, 3, 1, 0.2, 3}, Pi: []float64{0.4, 0.1, 0.3, 0.2}, T: T, Procs: procs})
+		pending = append(pending, c18Case{Model: "k2p", Par: []float64{2}, T: T, Procs: procs})
+	}
 	flush()
 	ts = append(ts, mc.Task{Name: "protein-tables", Run: c18CheckTables})
+	ts = append(ts, c18MLTask())
 	return ts
 }
 
@@ -1246,6 +1261,9 @@ func (k *c18Checker) eigenP(t float64) (c18M, bool) {
 }
 
 func c18Check(c *mc.Ctx, cs c18Case) {
+	if cs.Procs > 0 {
+		defer runtime.GOMAXPROCS(runtime.GOMAXPROCS(cs.Procs))
+	}
 	o, problem := c18Textbook(cs)
 	if strings.HasPrefix(problem, "data: ") {
 		// the model's own published constants cannot define a reversible rate matrix
@@ -1502,6 +1520,9 @@ func init() {
 		},
 		Tasks: c18Tasks,
 		Replay: func(c *mc.Ctx, payload json.RawMessage) {
+			if c18MLReplay(c, payload) {
+				return
+			}
 			var cs c18Case
 			if err := json.Unmarshal(payload, &cs); err != nil {
 				c.Fatal("bad payload: %v", err)
